@@ -4,10 +4,11 @@ import CookModel.Lemmas.Spans
   `Lemmas/ParserWp.lean` / `ParserNoPanic.lean` extended with a predicate on the event queue.
 
   `EvSpansOK off w ev` : every span inside the event `ev` is `SpanOK off w`, every text is `TextOK`.
-  `GE Pv ts e s`       : the invariant `G ts e s` and "every event in the queue satisfies `Pv`".
-  The lemmas are stated for every `Pv` that contains the diagnostics whose labels are all `SpanOK`
-  (`Ctx.diag`): instantiating `Pv` differently gives both "all spans are fine" and "the component
-  parsers push nothing but diagnostics".
+  `GE Pv ts e s`       : the invariant `G ts e s` and "the event queue satisfies `Pv`".
+  The lemmas of the component parsers are stated for every queue predicate `Pv` that is kept by
+  pushing a diagnostic whose labels are all `SpanOK` (`Ctx.diag`): the component parsers push
+  nothing but such diagnostics.  The block-level lemmas instantiate `Pv` with `TopInv` (all spans
+  fine, content events in source order).
 -/
 set_option linter.unusedSectionVars false
 set_option linter.unusedSimpArgs false
@@ -54,40 +55,36 @@ def EvSpansOK (off : Nat) (w : List Char) : Ev α → Prop
   | .warning d => DiagOK off w d
 
 /-- the invariant of the Hoare layer plus a predicate on all queued events -/
-structure GE (Pv : Ev α → Prop) (ts : List Tok) (e : Ext) (s : BP α) : Prop where
+structure GE (Pv : Array (Ev α) → Prop) (ts : List Tok) (e : Ext) (s : BP α) : Prop where
   g : G ts e s
-  evs : ∀ ev ∈ s.evs, Pv ev
+  evs : Pv s.evs
 
 /-- the static context of a block parser run: the block is a piece of the text `w`, and the event
     predicate admits every diagnostic with good labels -/
-structure Ctx (off : Nat) (w : List Char) (Pv : Ev α → Prop) (ts : List Tok) : Prop where
+structure Ctx (off : Nat) (w : List Char) (Pv : Array (Ev α) → Prop) (ts : List Tok) : Prop where
   wfi : WFI off w ts
-  diag : ∀ d : Diag, DiagOK off w d → Pv (.error d) ∧ Pv (.warning d)
+  diag : ∀ (evs : Array (Ev α)) (d : Diag), Pv evs → DiagOK off w d →
+    Pv (evs.push (.error d)) ∧ Pv (evs.push (.warning d))
 
-variable {off : Nat} {w : List Char} {Pv : Ev α → Prop} {ts : List Tok} {e : Ext} {s : BP α}
+variable {off : Nat} {w : List Char} {Pv : Array (Ev α) → Prop} {ts : List Tok} {e : Ext} {s : BP α}
 
 theorem GE.setCur (h : GE Pv ts e s) {c : Nat} (hc : c ≤ ts.length) : GE Pv ts e { s with cur := c } :=
   ⟨h.g.setCur hc, h.evs⟩
 
 theorem GE.le (h : GE Pv ts e s) : s.cur ≤ ts.length := h.g.le
 
-theorem GE.push (h : GE Pv ts e s) {ev : Ev α} (hev : Pv ev) : GE Pv ts e { s with evs := s.evs.push ev } := by
-  refine ⟨h.g.setEvs _, ?_⟩
-  intro x hx
-  simp only [Array.mem_push] at hx
-  rcases hx with hx | rfl
-  · exact h.evs x hx
-  · exact hev
+theorem GE.push {Pv' : Array (Ev α) → Prop} (h : GE Pv ts e s) {ev : Ev α} (hev : Pv' (s.evs.push ev)) :
+    GE Pv' ts e { s with evs := s.evs.push ev } := ⟨h.g.setEvs _, hev⟩
 
 theorem GE.err (hc : Ctx off w Pv ts) (h : GE Pv ts e s) {kind : String} {labels : List Span}
     (hl : ∀ l ∈ labels, SpanOK off w l) :
     GE Pv ts e { s with evs := s.evs.push (.error ⟨.error, .parse, kind, labels⟩) } :=
-  h.push (hc.diag ⟨.error, .parse, kind, labels⟩ hl).1
+  h.push (hc.diag _ ⟨.error, .parse, kind, labels⟩ h.evs hl).1
 
 theorem GE.warn (hc : Ctx off w Pv ts) (h : GE Pv ts e s) {kind : String} {labels : List Span}
     (hl : ∀ l ∈ labels, SpanOK off w l) :
     GE Pv ts e { s with evs := s.evs.push (.warning ⟨.warning, .parse, kind, labels⟩) } :=
-  h.push (hc.diag ⟨.warning, .parse, kind, labels⟩ hl).2
+  h.push (hc.diag _ ⟨.warning, .parse, kind, labels⟩ h.evs hl).2
 
 theorem Sat.perrE {kind : String} {labels : List Span} {Q : Unit → BP α → Prop}
     (h : Q () { s with evs := s.evs.push (.error ⟨.error, .parse, kind, labels⟩) }) :
@@ -394,7 +391,7 @@ theorem parseValue_ev (hc : Ctx off w Pv ts) (h : GE Pv ts e s) {o : Nat} {toks 
   · exact Sat.pure ⟨h, rfl, hsp⟩
   · rename_i d hd
     refine Sat.bind (Sat.pushEv ?_)
-    exact Sat.pure ⟨h.push (hc.diag _ (numOrRange_err hr.toksOK hd)).1, rfl, hsp⟩
+    exact Sat.pure ⟨h.push (hc.diag _ _ h.evs (numOrRange_err hr.toksOK hd)).1, rfl, hsp⟩
   · refine Sat.bind (Sat.mono (textValue_ev hc h (hr.headStart' (hc.wfi.offAt s.cur))) ?_)
     rintro v s1 ⟨g1, c1⟩
     exact Sat.pure ⟨g1, c1, hsp⟩
@@ -539,7 +536,7 @@ theorem parseAdvancedQuantity_ev (hc : Ctx off w Pv ts) (h : GE Pv ts e s) :
     · exact Sat.pure g5
     · rename_i d
       refine Sat.bind (Sat.pushEv ?_)
-      exact Sat.pure (g5.push (hc.diag _ (numOrRange_err hrv.toksOK hr)).1)
+      exact Sat.pure (g5.push (hc.diag _ _ g5.evs (numOrRange_err hrv.toksOK hr)).1)
   rintro v s6 g6
   have hunit := hrun.headStartNe hutne' 0
   refine Sat.bind (bpText_sat hunit.run ?_)
@@ -1448,5 +1445,279 @@ theorem timerP_ev (hc : Ctx off w Pv ts) (hz : Boundary off w 0) (h : GE Pv ts e
         refine Sat.bind (Sat.perrE ?_)
         exact hjp1 _ _ (g3.err hc (one_label (hrm.tokensSpan hne'))) rfl
       · exact hjp1 _ _ g3 rfl
+
+/-! ### Steps and blocks: all spans fine, content events in source order -/
+
+/-- the content events appear in source order without overlapping -/
+def SrcOrdered (evs : List (Ev α)) : Prop :=
+  evs.Pairwise (fun a b => ∀ sa sb, a.srcSpan = some sa → b.srcSpan = some sb → sa.stop ≤ sb.start)
+
+/-- the invariant of the event queue: every event has good spans, the content events are in source
+    order, and all of them end at or before byte `b` -/
+structure TopInv (off : Nat) (w : List Char) (b : Nat) (evs : Array (Ev α)) : Prop where
+  ok : ∀ ev ∈ evs.toList, EvSpansOK off w ev
+  ord : SrcOrdered evs.toList
+  bound : ∀ ev ∈ evs.toList, ∀ sp, ev.srcSpan = some sp → sp.stop ≤ b
+
+theorem TopInv.mono {b b' : Nat} {evs : Array (Ev α)} (h : TopInv off w b evs) (hb : b ≤ b') :
+    TopInv off w b' evs :=
+  ⟨h.ok, h.ord, fun ev hev sp hsp => Nat.le_trans (h.bound ev hev sp hsp) hb⟩
+
+theorem TopInv.push {b b' : Nat} {evs : Array (Ev α)} {ev : Ev α} (h : TopInv off w b evs)
+    (hok : EvSpansOK off w ev) (hb : b ≤ b')
+    (hin : ∀ sp, ev.srcSpan = some sp → b ≤ sp.start ∧ sp.stop ≤ b') : TopInv off w b' (evs.push ev) := by
+  refine ⟨?_, ?_, ?_⟩
+  · intro x hx
+    simp only [Array.toList_push, List.mem_append, List.mem_singleton] at hx
+    rcases hx with hx | rfl
+    · exact h.ok x hx
+    · exact hok
+  · unfold SrcOrdered
+    rw [Array.toList_push, List.pairwise_append]
+    refine ⟨h.ord, by simp, ?_⟩
+    intro a ha c hc' sa sb hsa hsb
+    simp only [List.mem_singleton] at hc'
+    subst hc'
+    exact Nat.le_trans (h.bound a ha sa hsa) (hin sb hsb).1
+  · intro x hx sp hsp
+    simp only [Array.toList_push, List.mem_append, List.mem_singleton] at hx
+    rcases hx with hx | rfl
+    · exact Nat.le_trans (h.bound x hx sp hsp) hb
+    · exact (hin sp hsp).2
+
+theorem TopInv.pushNone {b : Nat} {evs : Array (Ev α)} {ev : Ev α} (h : TopInv off w b evs)
+    (hok : EvSpansOK off w ev) (hn : ev.srcSpan = none) : TopInv off w b (evs.push ev) :=
+  h.push hok (Nat.le_refl _) (fun sp hsp => by rw [hn] at hsp; cases hsp)
+
+theorem topCtx (hw : WFI off w ts) (b : Nat) : Ctx off w (TopInv (α := α) off w b) ts :=
+  ⟨hw, fun evs d h hd => ⟨h.pushNone hd rfl, h.pushNone hd rfl⟩⟩
+
+theorem GE.mono {Pv' : Array (Ev α) → Prop} (h : GE Pv ts e s) (hp : Pv s.evs → Pv' s.evs) : GE Pv' ts e s :=
+  ⟨h.g, hp h.evs⟩
+
+theorem GE.bound {b b' : Nat} (h : GE (TopInv off w b) ts e s) (hb : b ≤ b') : GE (TopInv off w b') ts e s :=
+  h.mono (fun hi => hi.mono hb)
+
+/-- one iteration of the `while` of `parse_step` -/
+theorem stepOne_ev (hw : WFI off w ts) (hz : Boundary off w 0) {b : Nat} (h : GE (TopInv off w b) ts e s)
+    (hb : b ≤ offAt ts s.cur) (hlt : s.cur < ts.length) :
+    Sat (stepOne (α := α)) s (fun _ s' => GE (TopInv off w (offAt ts s'.cur)) ts e s' ∧ s.cur < s'.cur) := by
+  have hc := topCtx (α := α) hw b
+  unfold stepOne
+  apply Sat.bind
+  apply Sat.mono (Q := fun r s' => GE (TopInv off w b) ts e s' ∧
+    match r with
+    | none => s'.cur = s.cur
+    | some ev => s.cur < s'.cur ∧ EvSpansOK off w ev ∧ EvIn ts s.cur s'.cur ev)
+  · have comp : ∀ (p : P α (Option (Ev α))),
+        (∀ s : BP α, GE (TopInv off w b) ts e s → Sat p s (fun r s' => GE (TopInv off w b) ts e s' ∧
+          (r.isSome = true → s.cur < s'.cur) ∧ CompRet off w ts s.cur s'.cur r)) →
+        Sat (withRecover p) s (fun r s' => GE (TopInv off w b) ts e s' ∧
+          match r with
+          | none => s'.cur = s.cur
+          | some ev => s.cur < s'.cur ∧ EvSpansOK off w ev ∧ EvIn ts s.cur s'.cur ev) := by
+      intro p hp
+      apply withRecover_sat
+      refine Sat.mono (hp s h) ?_
+      rintro r s1 ⟨g1, h1, h2⟩
+      cases r with
+      | none => exact ⟨g1.setCur h.le, rfl⟩
+      | some ev => exact ⟨g1, h1 rfl, h2.1, h2.2⟩
+    refine Sat.bind (peekK_sat h.g ?_)
+    split
+    · exact comp _ (fun s h => ingredientP_ev hc h)
+    · exact comp _ (fun s h => cookwareP_ev hc h)
+    · exact comp _ (fun s h => timerP_ev hc hz h)
+    · exact Sat.pure ⟨h, rfl⟩
+  rintro comp s1 ⟨g1, h1⟩
+  cases comp with
+  | some ev =>
+    obtain ⟨c1, hok, hin⟩ := h1
+    refine Sat.pushEv ⟨g1.push (g1.evs.push hok ?_ ?_), c1⟩
+    · exact Nat.le_trans hb (hw.offAt_mono (Nat.le_of_lt c1))
+    · intro sp hsp
+      obtain ⟨h2, h3⟩ := hin sp hsp
+      exact ⟨Nat.le_trans hb h2, h3⟩
+  | none =>
+    dsimp only at h1 ⊢
+    refine Sat.bind (currentOffset_sat g1.g ?_)
+    refine Sat.bind (Sat.getCur ?_)
+    have hget : ts[s1.cur]? = some ts[s1.cur] := List.getElem?_eq_getElem (by omega)
+    refine Sat.bind (Sat.mono (bumpAny_ge g1 hget) ?_)
+    rintro _ s2 ⟨-, g2, c2⟩
+    refine Sat.bind (Sat.mono (consumeWhile_ge _ g2) ?_)
+    rintro _ s3 ⟨g3, c3, -, -, -⟩
+    refine Sat.bind (Sat.get ?_)
+    try dsimp only
+    have hle : s1.cur ≤ s3.cur := by omega
+    have hr : RunIn off w (offAt ts s1.cur) ((s3.toks.take s3.cur).drop s1.cur) := by
+      rw [g3.g.toks]; exact hw.slice hle
+    have hb3 : b ≤ offAt ts s3.cur := Nat.le_trans hb (hw.offAt_mono (by omega))
+    refine Sat.bind (bpText_sat hr.run ?_)
+    split
+    · refine Sat.pushEv ⟨g3.push (g3.evs.push (ev := .text _) hr.text hb3 ?_), by show s.cur < s3.cur; omega⟩
+      intro sp hsp
+      simp only [Ev.srcSpan, Option.some.injEq] at hsp
+      subst hsp
+      have hrg := hr.text_range
+      have e1 : lastStop (offAt ts s1.cur) ((s3.toks.take s3.cur).drop s1.cur) = offAt ts s3.cur := by
+        rw [g3.g.toks]; exact offAt_slice hle
+      rw [e1] at hrg
+      refine ⟨?_, hrg.2⟩
+      have hb1 : b ≤ offAt ts s1.cur := by rw [h1]; exact hb
+      exact Nat.le_trans hb1 hrg.1
+    · exact Sat.pure ⟨g3.bound hb3, by omega⟩
+
+theorem stepLoop_ev (hw : WFI off w ts) (hz : Boundary off w 0) (fuel : Nat) {b : Nat}
+    (h : GE (TopInv off w b) ts e s) (hb : b ≤ offAt ts s.cur) (hf : ts.length - s.cur ≤ fuel) :
+    Sat (stepLoop (α := α) fuel) s
+      (fun _ s' => GE (TopInv off w (offAt ts ts.length)) ts e s' ∧ s'.cur = ts.length) := by
+  have hle := h.le
+  induction fuel generalizing s b with
+  | zero =>
+    unfold stepLoop
+    refine Sat.bind (restToks_sat h.g ?_)
+    have : ts.drop s.cur = [] := List.drop_eq_nil_of_le (by omega)
+    rw [this]
+    have e1 : s.cur = ts.length := by omega
+    exact Sat.pure ⟨h.bound (by rw [← e1]; exact hb), e1⟩
+  | succ fuel ih =>
+    unfold stepLoop
+    refine Sat.bind (restToks_sat h.g ?_)
+    split
+    · rename_i hemp
+      have := drop_isEmpty_true hemp
+      have e1 : s.cur = ts.length := by omega
+      exact Sat.pure ⟨h.bound (by rw [← e1]; exact hb), e1⟩
+    · rename_i hemp
+      have hlt := drop_isEmpty_false (by simpa using hemp)
+      refine Sat.bind (Sat.mono (stepOne_ev hw hz h hb hlt) ?_)
+      rintro _ s1 ⟨g1, c1⟩
+      exact ih g1 (Nat.le_refl _) (by omega) g1.le
+
+theorem parseStep_ev (hw : WFI off w ts) (hz : Boundary off w 0) {b : Nat}
+    (h : GE (TopInv off w b) ts e s) (hb : b ≤ offAt ts s.cur) :
+    Sat (parseStep (α := α)) s
+      (fun _ s' => GE (TopInv off w (offAt ts ts.length)) ts e s' ∧ s'.cur = ts.length) := by
+  unfold parseStep
+  refine Sat.bind (Sat.pushEv ?_)
+  have g1 : GE (TopInv off w b) ts e { s with evs := s.evs.push (.start .step) } :=
+    h.push (h.evs.pushNone trivial rfl)
+  refine Sat.bind (restToks_sat g1.g ?_)
+  refine Sat.bind (Sat.mono (stepLoop_ev hw hz _ g1 hb (by simp)) ?_)
+  rintro _ s2 ⟨g2, c2⟩
+  exact Sat.pushEv ⟨g2.push (g2.evs.pushNone trivial rfl), c2⟩
+
+theorem textLineK_ev (hw : WFI off w ts) {b : Nat} (h : GE (TopInv off w b) ts e s)
+    (hb : b ≤ offAt ts s.cur) (k : P α Unit) (Q : Unit → BP α → Prop)
+    (hk : ∀ (s2 : BP α), GE (TopInv off w (offAt ts s2.cur)) ts e s2 → s.cur ≤ s2.cur →
+      (s.cur < ts.length → s.cur < s2.cur) → Sat k s2 Q) :
+    Sat (textLineK (α := α) k) s Q := by
+  unfold textLineK
+  refine Sat.bind (currentOffset_sat h.g ?_)
+  refine Sat.bind (Sat.getCur ?_)
+  refine Sat.bind (Sat.mono (consumeWhile_ge _ h) ?_)
+  rintro _ s1 ⟨g1, c1, -, -, hend⟩
+  refine Sat.bind (Sat.mono (consumeK_ge _ g1) ?_)
+  rintro r2 s2 ⟨g2, h2⟩
+  have hprog : s1.cur ≤ s2.cur ∧ (s.cur < ts.length → s.cur < s2.cur) := by
+    cases r2 with
+    | some nl =>
+      obtain ⟨-, -, c2⟩ := h2
+      exact ⟨by omega, fun _ => by omega⟩
+    | none =>
+      obtain ⟨c2, hk⟩ := h2
+      refine ⟨by omega, fun hlt => ?_⟩
+      rcases Nat.lt_or_ge s.cur s1.cur with h' | h'
+      · omega
+      · exfalso
+        have e1 : s1.cur = s.cur := by omega
+        have hget : ts[s1.cur]? = some ts[s1.cur] := List.getElem?_eq_getElem (by omega)
+        have := hend _ hget
+        apply hk
+        rw [hget]
+        simp only [Option.map_some, Option.some.injEq]
+        simpa using this
+  refine Sat.bind (Sat.get ?_)
+  dsimp only
+  have hle : s.cur ≤ s2.cur := by omega
+  have hr : RunIn off w (offAt ts s.cur) ((s2.toks.take s2.cur).drop s.cur) := by
+    rw [g2.g.toks]; exact hw.slice hle
+  have hb2 : b ≤ offAt ts s2.cur := Nat.le_trans hb (hw.offAt_mono hle)
+  refine Sat.bind (bpText_sat hr.run ?_)
+  split
+  · refine Sat.bind (Sat.pushEv ?_)
+    refine hk _ (g2.push (g2.evs.push (ev := .text _) hr.text hb2 ?_)) (by show s.cur ≤ s2.cur; omega) hprog.2
+    intro sp hsp
+    simp only [Ev.srcSpan, Option.some.injEq] at hsp
+    subst hsp
+    have hrg := hr.text_range
+    have e1 : lastStop (offAt ts s.cur) ((s2.toks.take s2.cur).drop s.cur) = offAt ts s2.cur := by
+      rw [g2.g.toks]; exact offAt_slice hle
+    rw [e1] at hrg
+    exact ⟨Nat.le_trans hb hrg.1, hrg.2⟩
+  · exact hk _ (g2.bound hb2) (by omega) hprog.2
+
+theorem textBlockLoop_ev (hw : WFI off w ts) (fuel : Nat) {b : Nat} (h : GE (TopInv off w b) ts e s)
+    (hb : b ≤ offAt ts s.cur) (hf : ts.length - s.cur ≤ fuel) :
+    Sat (textBlockLoop (α := α) fuel) s
+      (fun _ s' => GE (TopInv off w (offAt ts ts.length)) ts e s' ∧ s'.cur = ts.length) := by
+  have hle := h.le
+  induction fuel generalizing s b with
+  | zero =>
+    unfold textBlockLoop
+    refine Sat.bind (restToks_sat h.g ?_)
+    have : ts.drop s.cur = [] := List.drop_eq_nil_of_le (by omega)
+    rw [this]
+    have e1 : s.cur = ts.length := by omega
+    exact Sat.pure ⟨h.bound (by rw [← e1]; exact hb), e1⟩
+  | succ fuel ih =>
+    unfold textBlockLoop
+    refine Sat.bind (restToks_sat h.g ?_)
+    split
+    · rename_i hemp
+      have := drop_isEmpty_true hemp
+      have e1 : s.cur = ts.length := by omega
+      exact Sat.pure ⟨h.bound (by rw [← e1]; exact hb), e1⟩
+    · rename_i hemp
+      have hlt := drop_isEmpty_false (by simpa using hemp)
+      have tail : ∀ s1 : BP α, GE (TopInv off w b) ts e s1 → s.cur ≤ s1.cur →
+          Sat (textLineK (α := α) (textBlockLoop fuel)) s1
+            (fun _ s' => GE (TopInv off w (offAt ts ts.length)) ts e s' ∧ s'.cur = ts.length) := by
+        intro s1 g1 c1
+        refine textLineK_ev hw g1 (Nat.le_trans hb (hw.offAt_mono c1)) _ _ ?_
+        intro s2 g2 c2 hp
+        have hle2 := g2.le
+        have hle1 := g1.le
+        refine ih g2 (Nat.le_refl _) ?_ g2.le
+        rcases Nat.lt_or_ge s1.cur ts.length with h' | h'
+        · have := hp h'; omega
+        · omega
+      refine Sat.bind (Sat.mono (consumeK_ge _ h) ?_)
+      rintro r1 s1 ⟨g1, h1⟩
+      cases r1 with
+      | none => exact tail s1 g1 (by omega)
+      | some m =>
+        obtain ⟨-, -, c1⟩ := h1
+        dsimp only
+        refine Sat.bind (Sat.mono (consumeK_ge _ g1) ?_)
+        rintro r2 s2 ⟨g2, h2⟩
+        refine tail s2 g2 ?_
+        cases r2 with
+        | none => omega
+        | some w => obtain ⟨-, -, c2⟩ := h2; omega
+
+theorem parseTextBlock_ev (hw : WFI off w ts) {b : Nat} (h : GE (TopInv off w b) ts e s)
+    (hb : b ≤ offAt ts s.cur) :
+    Sat (parseTextBlock (α := α)) s
+      (fun _ s' => GE (TopInv off w (offAt ts ts.length)) ts e s' ∧ s'.cur = ts.length) := by
+  unfold parseTextBlock
+  refine Sat.bind (Sat.pushEv ?_)
+  have g1 : GE (TopInv off w b) ts e { s with evs := s.evs.push (.start .text) } :=
+    h.push (h.evs.pushNone trivial rfl)
+  refine Sat.bind (restToks_sat g1.g ?_)
+  refine Sat.bind (Sat.mono (textBlockLoop_ev hw _ g1 hb (by simp)) ?_)
+  rintro _ s2 ⟨g2, c2⟩
+  exact Sat.pushEv ⟨g2.push (g2.evs.pushNone trivial rfl), c2⟩
 
 end Cook
